@@ -500,6 +500,9 @@ package keeper
 //@ assert@Ecrecover[C01.sig] reveal(sigN(old(attestation), i)) && $1 == sigN(old(attestation), i)
 //@ assert@PubkeyToAddress[C01.addr] reveal(addrK(recKey(message, old(attestation), i))) && reveal(addrK(recKey(message, old(attestation), i - 1)))
 //@ assert@bytes.Compare[C01.cmp] reveal(addrLT(addrK(recKey(message, old(attestation), i - 1)), addrK(recKey(message, old(attestation), i))))
+// Shapes of the locals named below: used only when a name is no longer found (renamed local).
+//@ local i uint32
+//@ local latestECDSA ecdsa.PublicKey
 //@ loop 0 invariant[C01.nowrap] i < signatureThreshold ==> uint64(i + 1) == uint64(i) + 1
 //@ loop 0 invariant[C01.inside] i < signatureThreshold ==> sigOff(i) + 65 <= uint64(len(attestation)) && sigOff(i) <= sigOff(i) + 65
 //@ loop 0 invariant[C01.bound]  hint(i) && i <= signatureThreshold && signatureThreshold != 0 && uint64(len(attestation)) == 65 * uint64(signatureThreshold)
@@ -508,13 +511,15 @@ package keeper
 //@ loop 0 invariant[C01.done.order]  forall q: uint32 :: hint(q) && q < i ==> ordered(message, old(attestation), q)
 //@ loop 0 invariant[C01.latest] (i == 0 ==> latestECDSA.X == nil && latestECDSA.Y == nil) && (i > 0 ==> latestECDSA.X != nil && latestECDSA.Y != nil && big(latestECDSA.X) == keyX(recKey(message, old(attestation), i - 1)) && big(latestECDSA.Y) == keyY(recKey(message, old(attestation), i - 1)))
 //@ loop 0 invariant[C01.tail]   hintRange(sigOff(i), 65) && forall p: uint64 :: hint(p) && p >= sigOff(i) ==> mem(attestation, p) == old(mem(attestation, p))
-//@ loop 1 invariant[C01.scan]   hint(rangeindex + 1) && rangeindex >= -1 && rangeindex < len(publicKeys) && forall j: int :: hint(j) && 0 <= j && j <= rangeindex ==> fromHex(publicKeys[j].Attester) != recKey(message, old(attestation), i)
+//@ loop 1 over publicKeys
+//@ loop 1 invariant[C01.scan]   hint(loopidx) && loopidx >= 0 && loopidx <= len(publicKeys) && forall j: int :: hint(j) && 0 <= j && j < loopidx ==> fromHex(publicKeys[j].Attester) != recKey(message, old(attestation), i)
 
 // The store iterator yields the prefix range in key order (L0); the list built from it is st.attList.
 //@ func (Keeper) GetAllAttesters(ctx) (list)
 //@ layer L2
 //@ ensures[all] list == stAttesters()
 //@ modifies none
+//@ local list []types.Attester
 //@ loop 0 invariant[len]   uint64(len(list)) == iterPos() && iterPos() <= st.nAtt
 //@ loop 0 invariant[elems] forall j: uint64 :: (j < uint64(len(list)) ==> list[j].Attester == st.attList[j]) && (j >= uint64(len(list)) ==> list[j].Attester == "")
 
